@@ -159,6 +159,43 @@ def run(ctx, rep):
 
     def unindexed(E_, b):
         t = E_.term(b)
+        if "callee" in t and not DELETE_LIST(r"PackId")(t):
+            # the step extracted into a helper of the module: the exemption is decided inside the helper, its parameters
+            # standing for the arguments given here (the list of packs and the instant-delete flag)
+            H = prog.bodies.get(callee(t))
+            if H is None:
+                return False
+            inner = [bb for bb, ht in H.calls() if DELETE_LIST(r"PackId")(ht)]
+            if not inner:
+                return False
+            for ib in inner:
+                ht = H.term(ib)
+                pl = op_place(ht["args"][2])
+                if pl is None:
+                    return False
+                names, locs = backward_names(H, pl), backward_names(H, pl, want_locals=True)
+                for prm in [l for l in locs if 1 <= l <= H.argc and l - 1 < len(t["args"])]:
+                    ap = op_place(t["args"][prm - 1])
+                    if ap is not None:
+                        names = names | backward_names(E_, ap)
+                if "existing_packs" not in names or {"data_packs_remove", "tree_packs_remove"} & names:
+                    return False
+                under = False
+                for (sw, succ) in C.transitive_control_deps(H, ib):
+                    r = field_bool_test(H, sw, "instant_delete")
+                    if r and r[0] == succ:
+                        under = True
+                    ht_sw = H.term(sw)
+                    if ht_sw["k"] == "switch" and ht_sw["discr_ty"] == "bool":
+                        e_ = flow.expr_of(H, ht_sw["discr"], sw)
+                        if e_[0] == "path" and e_[1][0] == "arg" and not e_[2] and e_[1][1] - 1 < len(t["args"]):
+                            nm, neg = cond_name(E_, flow.expr_of(E_, t["args"][e_[1][1] - 1], b))
+                            taken_true = [v for v, x in ht_sw["targets"] if x == succ] != ["0"]
+                            if nm == "instant_delete" and (taken_true != neg):
+                                under = True
+                if not under:
+                    return False
+            return True
         names = backward_names(E_, op_place(t["args"][2])) if op_place(t["args"][2]) else set()
         if "existing_packs" not in names or {"data_packs_remove", "tree_packs_remove"} & names:
             return False
